@@ -56,6 +56,10 @@ type LAssertion struct {
 
 	Sign    *SigOpts // own enveloped signature
 	Encrypt *EncOpts // delivered as EncryptedAssertion
+
+	// ForeignIssuer: a non-conforming producer writes, where the Issuer belongs (after it when there is
+	// one), an element called Issuer in a namespace that is not SAML's.
+	ForeignIssuer *string
 }
 
 type LResponse struct {
@@ -74,6 +78,7 @@ type LResponse struct {
 	NameID        *string // LogoutRequest
 	SessionIndex  *string // LogoutRequest
 	Sign          *SigOpts
+	ForeignIssuer *string // see LAssertion.ForeignIssuer
 }
 
 // ---- normalised view of what the library returned ----------------------------------
